@@ -241,6 +241,17 @@ InvFormRoutes == IsForm =>
       /\ LitFromStr(CurF.neg, CurF.radix, CurF.body \o <<"_">>) = a
       /\ (m.ok /\ m.l = Limbs0) => a = LitInt(Limbs0)                     \* -0 is 0
 
+\* near misses for Variable::from_str: the texts of a few values with one token dropped
+NegBase == Leaves \cup Pick1 \cup Pick2 \cup Spines \cup {LTup(<<M1, LInt(FALSE, <<0>>), NZ>>), LArr(<<M1, M1>>)}
+NegToks == UNION {{DropTok(PrintVal(v), p) : p \in 1..Len(PrintVal(v))} : v \in NegBase}
+NegSeq == SetToSeq(NegToks)
+InvNearMisses == IsVal /\ CurV \in NegBase =>
+                   \A p \in 1..Len(PrintVal(CurV)) : LitPrintsBack(DropTok(PrintVal(CurV), p))
+\* parentheses around a whole value are transparent in a program, and not a literal for from_str
+Parenthesised(toks) == <<Pn("(")>> \o toks \o <<Pn(")")>>
+InvBrackets == IsVal => /\ ProgOutcome(Parenthesised(PrintVal(CurV))) = ProgOutcome(PrintVal(CurV))
+                        /\ FromStrOutcome(Parenthesised(PrintVal(CurV))) = Syntax
+
 Init == row = 0
 Next == \/ row = 0 /\ row' \in {-c : c \in 1..Chunks}
         \/ row < 0 /\ row' \in {i \in 1..(VN + FN) : i % Chunks = (-row) % Chunks}
@@ -287,11 +298,21 @@ Emit ==
            IN [i |-> i, v |-> VWire(v), toks |-> [j \in 1..Len(toks) |-> TokWire(toks[j])],
                tag |-> TWire(VTag(v)),
                \* (when the status is "ok" the value denoted is v itself: InvLitRoundTrip / InvProgRoundTrip)
-               from_str |-> FromStrOutcome(toks).st, prog |-> ProgOutcome(toks).st]])
+               from_str |-> FromStrOutcome(toks).st, prog |-> ProgOutcome(toks).st,
+               paren_prog |-> ProgOutcome(Parenthesised(toks)).st]])
   /\ ndJsonSerialize(Out \o "/print_lits.ndjson",
         [i \in 1..FN |->
            LET f == FSeq[i] IN
            [i |-> i, text |-> StrCat(LitPrefix(f.radix) \o f.body), neg |-> B(f.neg), radix |-> f.radix,
             from_str |-> LitFromStr(f.neg, f.radix, f.body), prog |-> LitInProgram(f.neg, f.radix, f.body)]])
-  /\ PrintT(<<"PRINTVAL_UNIVERSE", VN, FN, Cardinality(Leaves)>>)
+  /\ ndJsonSerialize(Out \o "/print_negvals.ndjson",
+        [i \in 1..Len(NegSeq) |->
+           LET o == FromStrOutcome(NegSeq[i]) IN
+           [toks |-> [j \in 1..Len(NegSeq[i]) |-> TokWire(NegSeq[i][j])],
+            atoms |-> [j \in 1..Len(NegSeq[i]) |->
+                         LET t == NegSeq[i][j] IN
+                         IF t.a = "float" THEN VWire(LFloat(FALSE, t.fid))
+                         ELSE IF t.a = "str" THEN VWire(LStr(t.sid)) ELSE [k |-> "void"]],
+            st |-> o.st, v |-> IF o.st = "ok" THEN VWire(o.v) ELSE [k |-> "void"]]])
+  /\ PrintT(<<"PRINTVAL_UNIVERSE", VN, FN, Cardinality(Leaves), Len(NegSeq)>>)
 =============================================================================
